@@ -53,4 +53,14 @@ class DownChunkingPlugin(Plugin):
                     f"Plugin {self.__class__.__name__} should yield (dict of) "
                     "strax.Chunk in compute method."
                 )
+            if isinstance(_result, dict):
+                expected = list(_result.keys())
+            else:
+                expected = [self.provides[0]]
+            for d, v in zip(expected, values):
+                if v.data_type != d:
+                    raise ValueError(
+                        f"{self.__class__.__name__} returned a Chunk with data_type "
+                        f"{v.data_type} instead of {d}."
+                    )
             yield self.superrun_transformation(_result, superrun, subruns)
